@@ -154,6 +154,8 @@ class CEval:
             info = {"count": ast.unparse(a[0])}
             if isinstance(a[0], ast.Lambda):
                 info["count_field"] = _ctx_field(a[0])
+            elif isinstance(a[0], ast.Attribute) and self.repo.dotted(self.mod, a[0].value) == "construct.this":
+                info["count_field"] = a[0].attr          # this.<field>
             if cnt is not None and sub.size[0] == "fixed":
                 return Node("Array", None, ("fixed", cnt * sub.size[1]), [sub], dict(info, mod=(cnt * sub.size[1]) % 8), ln)
             if sub.size[0] == "fixed":
